@@ -8,6 +8,7 @@ import (
 	"fmt"
 	"math/big"
 	"strings"
+	"sync"
 
 	"github.com/miekg/dns"
 	"pgregory.net/rapid"
@@ -76,6 +77,9 @@ func checkHash(c hashCase) error {
 		fmt.Sprintf("name-has-octet>=0x80(written \\DDD)=%v", highOctet(n)))
 	if esc {
 		pbt.Sample("escaped-name", c.Name)
+	}
+	if c.Iter > 150 {
+		pbt.Class(fmt.Sprintf("iterations=%d", c.Iter))
 	}
 	if c.Alg != 1 {
 		for _, s := range []string{c.Name, c.Name2} {
@@ -146,10 +150,12 @@ func genHash(t *rapid.T) hashCase {
 // (c) NSEC3.Match / NSEC3.Cover over constructed intervals
 
 const (
-	findCoverOwner = "nsec3-cover-owner-hash" // DESIGN §4 #2
-	findNextCase   = "nsec3-next-hash-case"   // zone text keeps the next hash in the case it was written in
-	findRootZone   = "nsec3-root-zone"        // owner name of a single label (root zone) never matches / covers
-	findNoHash     = "nsec3-cover-no-hash"    // Cover is true for wrapping / empty intervals when the record's hash cannot be computed
+	findCoverOwner    = "nsec3-cover-owner-hash"    // DESIGN §4 #2
+	findNextCase      = "nsec3-next-hash-case"      // zone text keeps the next hash in the case it was written in
+	findRootZone      = "nsec3-root-zone"           // owner name of a single label (root zone) never matches / covers
+	findNoHash        = "nsec3-cover-no-hash"       // Cover is true for wrapping / empty intervals when the record's hash cannot be computed
+	findOwnerSpelling = "nsec3-owner-hash-spelling" // hash label of the owner with an octet written as \DDD / \c never matches
+	findZoneSpelling  = "nsec3-zone-spelling"       // repaired by 7716a5d: zone labels spelled differently in the name and the owner
 )
 
 type coverCase struct {
@@ -231,6 +237,23 @@ func strictlyInside(h, owner, next []byte) bool {
 	}
 }
 
+// refHashRaw is ref.NSEC3HashRaw; for large iteration counts (the enumerated bounds ask for the same
+// few hashes again and again, milliseconds each) the value of the pure reference function is kept.
+var refHashMemo sync.Map
+
+func refHashRaw(name ref.Labels, salt []byte, iter uint16) []byte {
+	if iter < 1000 {
+		return ref.NSEC3HashRaw(name, salt, iter)
+	}
+	key := fmt.Sprintf("%x|%x|%d", name.Wire(), salt, iter)
+	if v, ok := refHashMemo.Load(key); ok {
+		return append([]byte(nil), v.([]byte)...)
+	}
+	h := ref.NSEC3HashRaw(name, salt, iter)
+	refHashMemo.Store(key, append([]byte(nil), h...))
+	return h
+}
+
 func checkCover(c coverCase) error {
 	zone, name := ref.Labels(c.Zone), ref.Labels(c.Name)
 	if len(c.OwnerHash) != 20 || len(c.NextHash) != 20 {
@@ -246,7 +269,13 @@ func checkCover(c coverCase) error {
 	if l, err := labelsOf(c.NameText); err != nil || !l.EqualFold(name) {
 		return nil
 	}
-	if !strings.EqualFold(c.OwnerText, ref.Base32Hex(c.OwnerHash)) {
+	// the hash label of the owner: the base32hex text in any letter case, possibly with octets written
+	// as \DDD or \c (struct literal and zone text only: the wire decoder writes letters and digits raw)
+	ownerRespelled := !strings.EqualFold(c.OwnerText, ref.Base32Hex(c.OwnerHash))
+	if l, err := labelsOf(c.OwnerText + "."); err != nil || len(l) != 1 || !strings.EqualFold(string(l[0]), ref.Base32Hex(c.OwnerHash)) {
+		return nil
+	}
+	if ownerRespelled && c.FromWire && !c.FromText {
 		return nil
 	}
 	switch c.NoHash {
@@ -262,7 +291,7 @@ func checkCover(c coverCase) error {
 	default:
 		return nil
 	}
-	h := ref.NSEC3HashRaw(name, c.Salt, c.Iter)
+	h := refHashRaw(name, c.Salt, c.Iter)
 	in := inZone(name, zone)
 	shape, pos := shapeOf(c.OwnerHash, c.NextHash), posOf(h, c.OwnerHash, c.NextHash)
 	wantMatch := in && bytes.Equal(h, c.OwnerHash)
@@ -277,6 +306,19 @@ func checkCover(c coverCase) error {
 		fmt.Sprintf("rootzone=%v", len(zone) == 0), "hash-computable="+map[string]string{"": "yes", "alg": "no(hash algorithm)", "salt": "no(salt text)"}[c.NoHash])
 	if c.NoHash != "" {
 		pbt.Class(fmt.Sprintf("no-hash/%s/in=%v", shape, in))
+	}
+	pbt.Class(fmt.Sprintf("owner-hash-label-respelled=%v", ownerRespelled))
+	// spelling of the two texts (round 8): the canonical escaping of both, or an octet written another way
+	pbt.Class(fmt.Sprintf("name-respelled=%v", !strings.EqualFold(c.NameText, wm.EscName(wm.Name(c.Name)))),
+		fmt.Sprintf("zone-respelled=%v", !strings.EqualFold(c.ZoneText, wm.EscName(wm.Name(c.Zone)))))
+	if in && len(zone) > 0 {
+		pbt.Class(fmt.Sprintf("in-zone:zone-labels-spelled-differently-in-name-and-owner=%v", !strings.HasSuffix(strings.ToLower(c.NameText), strings.ToLower(c.ZoneText))))
+	}
+	if len(c.Salt) == 0 && c.NoHash == "" {
+		pbt.Class("empty-salt(\"\" in the struct, \"-\" in zone text, length 0 on the wire)")
+	}
+	if c.Iter > 150 {
+		pbt.Class(fmt.Sprintf("iterations=%d", c.Iter))
 	}
 	hashAlg, saltField := uint8(1), hex.EncodeToString(c.Salt)
 	switch c.NoHash {
@@ -568,6 +610,16 @@ func genCover(t *rapid.T) coverCase {
 	c.OwnerText = flipCaseText(t, ref.Base32Hex(c.OwnerHash), "oc")
 	c.ZoneText = flipCaseText(t, wm.EscName(zone), "zc")
 	c.NameText = flipCaseText(t, wm.EscName(name), "nc")
+	// Round 8: the two texts need not spell an octet the same way - the record comes from the wire or a
+	// zone file in the library's spelling, the name asked about is typed by somebody else (a letter as
+	// \DDD, a hyphen as \-, ...). The zone test of Match / Cover compares labels of the two texts, so
+	// each text is respelled on its own in about a quarter of the cases.
+	if rapid.IntRange(0, 3).Draw(t, "zspell") == 0 {
+		c.ZoneText = gen.SpellName(t, gen.FlipCase(t, zone))
+	}
+	if rapid.IntRange(0, 3).Draw(t, "nspell") == 0 {
+		c.NameText = gen.SpellName(t, gen.FlipCase(t, name))
+	}
 	switch rapid.IntRange(0, 2).Draw(t, "source") {
 	case 1:
 		c.FromWire = true
@@ -580,8 +632,19 @@ func genCover(t *rapid.T) coverCase {
 		}
 		// the zone-file reader has its own rules for special characters in names; keep the text
 		// source to names that need no escapes (escaped owners are exercised by the other sources)
-		if strings.ContainsAny(c.ZoneText+c.NameText, "\\") {
+		// (only the owner goes through the reader: the name asked about may be spelled in any way)
+		if strings.ContainsAny(c.ZoneText, "\\") {
 			c.FromText, c.NextText = false, ""
+		}
+	}
+	// the hash label itself with an octet written as an escape (a zone file may spell it so, and so may a
+	// program; the zone reader keeps the owner as written). Not for the wire source: the decoder prints
+	// letters and digits raw.
+	if (!c.FromWire || c.FromText) && rapid.IntRange(0, 7).Draw(t, "ospell") == 0 {
+		if pbt.Known(findOwnerSpelling) {
+			pbt.Excluded(findOwnerSpelling)
+		} else {
+			c.OwnerText = gen.SpellLabel(t, []byte(c.OwnerText))
 		}
 	}
 	if in && bytes.Equal(to20(h), c.OwnerHash) && bytes.Compare(c.OwnerHash, c.NextHash) < 0 && pbt.Known(findCoverOwner) {
@@ -647,6 +710,35 @@ func init() {
 		}
 		c.NoHash, c.HashAlg, c.SaltText = "salt", 0, "zz"
 		return checkCover(c)
+	})
+	// Round 8, remark 2 of the breakers (repaired by 7716a5d, kept as a regression test): the record that
+	// matches www.example. did not match the same name typed as www.\101xample. - the zone test compared
+	// the label texts.
+	pbt.Probe(findZoneSpelling, func() error {
+		name := ref.Labels{[]byte("www"), []byte("example")}
+		h := ref.NSEC3HashRaw(name, []byte{0xaa, 0xbb, 0xcc, 0xdd}, 12)
+		for _, text := range []string{`www.\101xample.`, `WWW.\069xample.`, `\119ww.e\xample.`} {
+			for _, wire := range []bool{false, true} {
+				if err := checkCover(coverCase{Zone: [][]byte{[]byte("example")}, Name: name, Salt: []byte{0xaa, 0xbb, 0xcc, 0xdd}, Iter: 12,
+					OwnerHash: h, NextHash: h, OwnerText: ref.Base32Hex(h), ZoneText: "example.", NameText: text, FromWire: wire}); err != nil {
+					return err
+				}
+			}
+		}
+		return nil
+	})
+	// Round 8: the first record of the RFC 5155 Appendix A chain (0p9mhave... = H(example), next
+	// 2t7b4g4v...) read from a zone file that writes the first character of the hash label as \048:
+	// the zone reader keeps the owner as written, Match and Cover compare the label text.
+	pbt.Probe(findOwnerSpelling, func() error {
+		owner, e1 := base32.HexEncoding.DecodeString("0P9MHAVEQVM6T7VBL5LOP2U3T2RP3TOM")
+		next, e2 := base32.HexEncoding.DecodeString("2T7B4G4VSA5SMI47K61MV5BV1A22BOJR")
+		if e1 != nil || e2 != nil {
+			return nil
+		}
+		return checkCover(coverCase{Zone: [][]byte{[]byte("example")}, Name: [][]byte{[]byte("example")}, Salt: []byte{0xaa, 0xbb, 0xcc, 0xdd}, Iter: 12,
+			OwnerHash: owner, NextHash: next, OwnerText: `\048p9mhaveqvm6t7vbl5lop2u3t2rp3tom`, ZoneText: "example.", NameText: "example.",
+			FromText: true, NextText: "2t7b4g4vsa5smi47k61mv5bv1a22bojr"})
 	})
 	pbt.Register(pbt.Sub[hashCase]{Name: "nsec3-hash", Weight: 6, Gen: genHash, Check: checkHash})
 	pbt.Register(pbt.Sub[coverCase]{Name: "nsec3-match-cover", Weight: 10, Gen: genCover, Check: checkCover})
